@@ -4,7 +4,10 @@ import json, os, glob
 V = os.path.dirname(os.path.dirname(os.path.abspath(__file__)))
 props = [json.loads(l)["id"] for l in open(os.path.join(V, "properties.jsonl"))]
 checks, engines = [], {}
+registered = {l.strip() for l in open(os.path.join(V, "checks", "REGISTERED")) if l.strip()}
 for pid in props:
+    if pid not in registered:
+        continue
     p = os.path.join(V, "checks", f"{pid}.json")
     if not os.path.exists(p):
         continue
